@@ -309,7 +309,9 @@ def replay(case):
             print(case["key"], derive_condition_node_type(str(case["key"])))
         except ValueError as e:
             print(case["key"], "ValueError", e)
-    return 1
+    # the documented extract / class of the case lives in the specification's state space: the verdict comes from re-running the check
+    print("re-deciding with the quick tier of the check")
+    return run()
 
 
 if __name__ == "__main__":
